@@ -142,11 +142,15 @@ def main():
     exit_code = 0
     if ctx.broken:
         found = None
+        search_error = None
         try:
             found = mod.search(ctx)
         except Exception:
-            vlib.log(traceback.format_exc())
+            search_error = traceback.format_exc()
+            vlib.log(search_error)
         replay = {"property": pid, "broken": ctx.broken, "seed": seed, "tier": tier}
+        if search_error:
+            replay["search_error"] = search_error[-1500:]
         if found:
             replay["failing_input"] = found
             path = vlib.write_replay(pid, replay)
